@@ -15,7 +15,9 @@
       inclusive), in key order: SkipListIndex.GetRangeScanIterator compares the
       encoded keys bytewise, and the encoded order is the value order for
       integers, non-NaN floats and NUL-free strings (C18: int_order, float_order,
-      str_order, *_scankey; C17 for the container);
+      str_order, *_scankey; C17 for the container).  A bound the plan carries that
+      IsInfMin() (start) / IsInfMax() (end) is replaced by nil in
+      RangeScanWithIndexExecutor.Init: that side is scanned unbounded ([scan_in]);
     - a row whose indexed column is NULL is stored in the index under the zero
       value of the column type (EncodeValueAndRIDToDicOrderComparableVarchar reads
       ToInteger()/ToFloat()/Serialize() of a value whose payload SetNull() zeroed);
@@ -348,7 +350,11 @@ Definition index_candidate (sch : schema) (st : wstate) (cols : list nat) (c : n
   if range_empty r then None
   else
     let scan := PIndexRange c (col_type sch c) (rmin r) (rmax r) in
-    let check_needed := negb (rmin_inc r) || negb (rmax_inc r) || ws_inexact st c in
+    (* isPredicateCheckNeeded: a literal equal to a sentinel set a bound inclusively (the executor
+       scans that side unbounded), or a bound is exclusive, or the range is inexact *)
+    let check_needed :=
+      (cv_is_inf_min (rmin r) && rmin_inc r) || (cv_is_inf_max (rmax r) && rmax_inc r)
+      || (negb (rmin_inc r) || negb (rmax_inc r) || ws_inexact st c) in
     let body :=
       match scan_exp (ws_related st) with
       | Some e => if negb (touch_only e c) || check_needed then PSelection scan e else scan
@@ -422,6 +428,11 @@ Definition vlt (a b : value) : bool :=
 
 Definition in_range (lo hi k : value) : bool := vle lo k && vle k hi.
 
+(** The keys the executor's scan covers: Init() drops a start bound that IsInfMin()
+    and an end bound that IsInfMax() (nil = unbounded on that side). *)
+Definition scan_in (lo hi k : value) : bool :=
+  (cv_is_inf_min lo || vle lo k) && (cv_is_inf_max hi || vle k hi).
+
 (** Stable insertion sort of rows by index key. *)
 Fixpoint insert_row (c : nat) (ty : coltype) (x : row) (l : list row) : list row :=
   match l with
@@ -436,7 +447,7 @@ Definition sort_rows (c : nat) (ty : coltype) (l : list row) : list row :=
 
 (** RangeScanWithIndexExecutor over the skip-list index of column [c]. *)
 Definition idx_scan (c : nat) (ty : coltype) (lo hi : value) (t : table) : option table :=
-  let hits := filter (fun r => in_range lo hi (index_key ty (nth c r VNull))) t in
+  let hits := filter (fun r => scan_in lo hi (index_key ty (nth c r VNull))) t in
   if existsb (fun r => is_null (nth c r VNull)) hits then None
   else Some (sort_rows c ty hits).
 
@@ -506,3 +517,18 @@ Fixpoint cmps (p : pred) : list cmp3 :=
     the sentinel defect for a concrete statement and table. *)
 Definition stmt_hits_bad (p : pred) (t : table) : bool :=
   existsb (fun r => existsb (fun x => ordered (c3op x) && cv_bad (nth (c3col x) r VNull) (c3lit x)) (cmps p)) t.
+
+(** Some row holds NULL in an indexed column: the signature of the NULL-in-index
+    defect (such a row sits in the index under the zero key; a range scan that
+    meets it aborts the statement). *)
+Definition has_null_in_indexed_col (sch : schema) (t : table) : bool :=
+  existsb (fun r => existsb (fun c => is_null (nth c r VNull)) (indexed_cols sch)) t.
+
+(** The same for one plan: the index scan inside [pl] meets a NULL entry. *)
+Fixpoint plan_hits_null (pl : plan) (t : table) : bool :=
+  match pl with
+  | PIndexRange c ty lo hi =>
+      existsb (fun r => is_null (nth c r VNull) && scan_in lo hi (zero_of ty)) t
+  | PSelection ch _ | PProjection ch _ => plan_hits_null ch t
+  | _ => false
+  end.
